@@ -6,6 +6,7 @@ import (
 	"fmt"
 	"go/types"
 	"math/big"
+	"sort"
 	"strings"
 )
 
@@ -90,6 +91,9 @@ func sortOf1(t types.Type) *Sort {
 	case *types.Map:
 		return MapSort(u.Key(), u.Elem())
 	case *types.Interface:
+		if u := unionSort(t); u != nil {
+			return u
+		}
 		return SIface
 	case *types.Signature:
 		return &Sort{Kind: KUnint, Name: "Func"}
@@ -177,6 +181,114 @@ func MapSort(k, v types.Type) *Sort {
 	return s
 }
 
+// ---- closed interfaces as tagged unions ----
+
+type unionCase struct {
+	Typ  types.Type // implementing type as stored in the interface (T or *T)
+	Elem types.Type // value carried (T)
+	Ctor *Ctor
+}
+
+var (
+	theProgram *Program
+	unionCases = map[*Sort][]unionCase{}
+)
+
+// unionSort returns the tagged-union sort of a module-defined interface whose implementers
+// (named types of the module) form a small closed set, or nil.
+func unionSort(t types.Type) *Sort {
+	nt, ok := t.(*types.Named)
+	if !ok || theProgram == nil || nt.Obj().Pkg() == nil || !strings.HasPrefix(nt.Obj().Pkg().Path(), modPath) {
+		return nil
+	}
+	it, ok := nt.Underlying().(*types.Interface)
+	if !ok || it.NumMethods() == 0 {
+		return nil
+	}
+	sealed := false
+	for i := 0; i < it.NumMethods(); i++ {
+		if !it.Method(i).Exported() {
+			sealed = true
+		}
+	}
+	if !sealed {
+		return nil
+	}
+	key := "Iface<" + typeKey(t) + ">"
+	if s, ok := tm.sorts[key]; ok {
+		return s
+	}
+	var impls []types.Type
+	var paths []string
+	for path := range theProgram.ByPath {
+		if strings.HasPrefix(path, modPath) {
+			paths = append(paths, path)
+		}
+	}
+	sort.Strings(paths)
+	for _, path := range paths {
+		sc := theProgram.ByPath[path].Types.Scope()
+		for _, name := range sc.Names() {
+			tn, ok := sc.Lookup(name).(*types.TypeName)
+			if !ok || tn.IsAlias() {
+				continue
+			}
+			n, ok := tn.Type().(*types.Named)
+			if !ok || n.TypeParams().Len() > 0 {
+				continue
+			}
+			if _, isI := n.Underlying().(*types.Interface); isI {
+				continue
+			}
+			if types.Implements(n, it) {
+				impls = append(impls, n)
+			} else if types.Implements(types.NewPointer(n), it) {
+				impls = append(impls, types.NewPointer(n))
+			}
+		}
+	}
+	if len(impls) == 0 || len(impls) > 12 {
+		return nil
+	}
+	s := &Sort{Kind: KDT, Name: key}
+	tm.sorts[key] = s
+	s.Ctors = []*Ctor{{Name: "nil:" + key, Sort: s}}
+	var cases []unionCase
+	for _, im := range impls {
+		elem := im
+		if p, ok := im.(*types.Pointer); ok {
+			elem = p.Elem()
+		}
+		var es *Sort
+		func() {
+			defer func() {
+				if recover() != nil {
+					es = nil
+				}
+			}()
+			es = SortOf(elem)
+		}()
+		if es == nil || es == s {
+			delete(tm.sorts, key)
+			return nil
+		}
+		c := &Ctor{Name: "as:" + typeKey(im) + ":" + key, Sort: s, Fields: []CField{{key + "." + typeKey(elem), es}}}
+		s.Ctors = append(s.Ctors, c)
+		cases = append(cases, unionCase{Typ: im, Elem: elem, Ctor: c})
+	}
+	unionCases[s] = cases
+	return s
+}
+
+func unionCaseFor(s *Sort, t types.Type) *unionCase {
+	for i := range unionCases[s] {
+		if types.Identical(unionCases[s][i].Typ, t) {
+			return &unionCases[s][i]
+		}
+	}
+	return nil
+}
+
 // intRange returns the value range of a Go integer type.
 func intRange(b *types.Basic) (lo, hi *big.Int, ok bool) {
 	var w int
@@ -250,8 +362,8 @@ func zeroOfSort(s *Sort, t types.Type) *Term {
 		}
 		return ConstArray(s, zeroOfSort(s.Elem, et))
 	case KDT:
-		if strings.HasPrefix(s.Name, "Ptr<") {
-			return PtrNil(s)
+		if strings.HasPrefix(s.Name, "Ptr<") || strings.HasPrefix(s.Name, "Iface<") {
+			return MkCtor(s.Ctors[0])
 		}
 		if strings.HasPrefix(s.Name, "Map<") {
 			c := s.Ctors[0]
